@@ -105,6 +105,24 @@ CHECKS = {
                     "connections or a dead session being serviced in a busy loop."),
         level_note="Quiescence is observed with bounded waits (<=10 s); counts are process-wide.",
     ),
+    "C15": dict(
+        pkg="c15",
+        level="fault_enumeration",
+        technique="property-based testing (rapid) over scripted stalling/misbehaving peers against real server endpoints; oracle: well-behaved clients complete handshake + echo within a bound",
+        rule=("case = (endpoint kind tcp/tcp+tls/unix/http/https/udp/dns, server offers StartTLS?, stall point after-connect / inside "
+              "the first request (drawn cut) / between the two requests / inside a TLS ClientHello (drawn cut) / after the upgrade "
+              "/ garbage / one byte every 400 ms, 1-5 stalled peers, 1-3 well-behaved clients arriving while they stall). Oracle: every "
+              "well-behaved client (the pair's own and freshly started extra clients) completes handshake and a 300-byte echo "
+              "within 10 s (40 s DNS) while the stalled peers stay connected; a failure is re-confirmed once with a fresh client "
+              "(otherwise counted inconclusive). Every case is non-trivial (at least one stalled peer); distinct = distinct tuple"),
+        assumptions=["time bound 10 s (DNS 40 s) is >100x the normal latency on this machine"],
+        quick=dict(run=".", checks=40, timeout=600, shrinktime="5s"),
+        thorough=dict(run=".", checks=150, timeout=3400, shards=6),
+        design_ref="DESIGN.md 2/C15",
+        level_text=("Generated stall/misbehaviour scripts at each handshake step on every endpoint kind. A green run means no generated "
+                    "stalled peer delayed a well-behaved client beyond the bound."),
+        level_note="Bounded-time observation; stall points are sampled per kind, peers are scripted in the harness.",
+    ),
     "C17": dict(
         pkg="c17",
         level="exploration",
